@@ -63,6 +63,7 @@ func c06(g *Gen) {
 			panic(err)
 		}
 		g.Emit("C06.universe", in, dumpUniverse(u), append(cls, "universe")...)
+		g.Emit("C06.wellformed", in, boolS(true), "wellformed") // the shape hypothesis of the canonical-identity theorems
 		var problems []string
 		// (A) every reachable object is the canonical entry of its own name; (B) none is a placeholder
 		for t := range reachable(u) {
